@@ -502,6 +502,33 @@ func checkC09(c *Check) {
 		mainF := &File{Name: "main.tsh", Imports: []Import{{Alias: "net", Path: "net.tsh"}, {Alias: "disk", Path: "disk.tsh"}}, Stmts: []Stmt{pr(sl("address"), Call{Alias: "net", Fn: "Address"}), pr(sl("root"), Call{Alias: "disk", Fn: "Root"})}}
 		cases = append(cases, mcase{fmt.Sprintf("diamond-single-top-level-call/shared-calls=%d", n), &Program{Files: []*File{mainF, mk("net.tsh", "setup", "Address", 2), mk("disk.tsh", "mount", "Root", 3), shared}}})
 	}
+	// definitions of a file reached along two paths whose initialiser is a call with an effect: the file is defined
+	// once, so the effect shows once - for a single value, for a value list from one call, for both in one file
+	for _, kind := range []string{"single", "pair", "both", "pair-typed"} {
+		shared := &File{Name: "settings.tsh"}
+		shared.Stmts = append(shared.Stmts, fn("one", nil, []Type{TInt}, pr(sl("one called")), ret(il(5))), fn("pair", nil, []Type{TInt, TString}, pr(sl("pair called")), ret(il(7), sl("seven"))))
+		get := Expr(il(0))
+		if kind == "single" || kind == "both" {
+			shared.Stmts = append(shared.Stmts, def("s1", call("one")))
+			get = bin("+", get, vr("s1"))
+		}
+		if kind == "pair" || kind == "both" {
+			shared.Stmts = append(shared.Stmts, VarDecl{Names: []string{"q", "r"}, Values: []Expr{call("pair")}})
+			get = bin("+", get, bin("+", vr("q"), Len{vr("r")}))
+		}
+		if kind == "pair-typed" {
+			shared.Stmts = append(shared.Stmts, VarDecl{Names: []string{"q", "r"}, Short: true, Values: []Expr{call("pair")}})
+			get = bin("+", get, bin("+", vr("q"), Len{vr("r")}))
+		}
+		shared.Stmts = append(shared.Stmts, fn("Get", nil, []Type{TInt}, ret(get)))
+		mk := func(name, pub string) *File {
+			return &File{Name: name, Imports: []Import{{Alias: "settings", Path: "settings.tsh"}}, Stmts: []Stmt{fn(pub, nil, []Type{TInt}, ret(Call{Alias: "settings", Fn: "Get"}))}}
+		}
+		mainF := &File{Name: "main.tsh", Imports: []Import{{Alias: "b", Path: "b.tsh"}, {Alias: "c", Path: "c.tsh"}}, Stmts: []Stmt{pr(Call{Alias: "b", Fn: "B"}, Call{Alias: "c", Fn: "C"})}}
+		cases = append(cases, mcase{"diamond-effectful-definition/" + kind, &Program{Files: []*File{mainF, mk("b.tsh", "B"), mk("c.tsh", "C"), shared}}})
+		twice := &File{Name: "main.tsh", Imports: []Import{{Alias: "s1", Path: "settings.tsh"}, {Alias: "s2", Path: "settings.tsh"}}, Stmts: []Stmt{pr(Call{Alias: "s1", Fn: "Get"}, Call{Alias: "s2", Fn: "Get"})}}
+		cases = append(cases, mcase{"two-aliases-effectful-definition/" + kind, &Program{Files: []*File{twice, shared}}})
+	}
 	// random acyclic import graphs over 3-6 files with the module content above (every file beyond main is reached;
 	// files reached along several paths are the definition-only kind)
 	nShapes := c.Pick(20, 400)
